@@ -73,11 +73,17 @@ def blockedSet (c : Cfg) (s : State) : List Nat :=
   (List.range (tasksBound c)).filter fun t =>
     s.pc t != .absent && s.pc t != .exited && !enabledTask c s t
 
+/-- the same state with `pc` tabulated (the model represents `pc` as a function that every step wraps
+once more; long traces with many tasks are replayed much faster when it is flattened now and then) -/
+def compact (c : Cfg) (s : State) : State :=
+  let arr := ((List.range (tasksBound c)).map s.pc).toArray
+  { s with pc := fun i => match arr[i]? with | some p => p | none => s.pc i }
+
 def run (c : Cfg) : State → Nat → List Item' → Except (Nat × String) State
   | s, _, [] => .ok s
   | s, i, .ev t e :: rest =>
     match step c s t e with
-    | some s' => run c s' (i + 1) rest
+    | some s' => run c (if i % 64 == 63 then compact c s' else s') (i + 1) rest
     | none => .error (i, s!"task {t} at {showPc (s.pc t)} cannot do {(toString (repr e)).replace " " "_"}")
   | s, i, .blocked ids :: rest =>
     if blockedSet c s == ids then run c s (i + 1) rest
